@@ -29,6 +29,7 @@ def workdir(prefix):
 def _cfg(scn):
     return {
         'redispatch': True,
+        'stopt': True,
         'buses': [{'name': b['name'], 'parallel': bool(b.get('parallel')), 'maxhist': int(b.get('maxhist') or 0), 'wal': bool(b.get('wal'))} for b in scn['buses']],
         'handlers': [dict({'id': h['id'], 'bus': h['bus'], 'pat': h['pat'], 'kind': h.get('kind', 'async'), 'to': h.get('to', '')},
                           **({'late': True} if h.get('late') else {})) for h in scn['handlers']],
@@ -193,7 +194,7 @@ def impl_eligible(scn):
     for ops in scn['drivers']:
         for op in ops:
             if op[0] not in _D_OPS or (op[0] == 'd' and len(op) > 3 and op[3]) \
-                    or (op[0] == 'stop' and ((len(op) > 2 and op[2]) or (len(op) > 3 and op[3]))) or (op[0] == 'expect' and len(op) > 7 and op[7]):
+                    or (op[0] == 'stop' and len(op) > 3 and op[3]) or (op[0] == 'expect' and len(op) > 7 and op[7]):
                 return False
     return True
 
@@ -201,13 +202,31 @@ def impl_eligible(scn):
 def impl_trace_ok(tr):
     """trace-level exclusions of corners the model deliberately leaves out (documented in DESIGN.md 12.3)"""
     stopped = set()
+    stopping = {}     # bus -> callers inside an untimed stop()
+    stopping_t = {}   # bus -> callers inside stop(timeout > 0): first a wait_until_idle(), during which the bus works as usual
     rejected_roots = set()
     for l in tr['lines']:
         a = l['a']
-        if a in ('StopB', 'CancelRL'):
+        if a == 'StopB':
+            timed = (l.get('tmo') or 0) > 0
+            if stopping_t.get(l['b']) or (timed and stopping.get(l['b'])):
+                return False  # overlapping stop() calls on one bus of which one is timed: not modelled
+            if timed and l.get('running'):
+                stopping_t.setdefault(l['b'], set()).add(l['d'])
+            else:
+                stopping.setdefault(l['b'], set()).add(l['d'])
+                stopped.add(l['b'])
+        elif a == 'StopE':
+            stopping.get(l['b'], set()).discard(l['d'])
+            if l['d'] in stopping_t.get(l['b'], ()):
+                stopping_t[l['b']].discard(l['d'])
+                stopped.add(l['b'])
+        elif a == 'CancelRL':
             stopped.add(l['b'])
         elif a in ('Disp', 'IdleB') and l['b'] in stopped:
             return False      # a bus used again after stop()/cancel: a new run loop next to the dying one (findings G2/G3 territory)
+        elif stopping_t.get(l['b'] if 'b' in l else None) and (a == 'IdleB' or (a == 'Disp' and l['out'] == 'rej_shutdown')):
+            return False      # the same, inside the shutdown phase of a timed stop() (or possibly so: IdleB)
         if a == 'Disp' and not l.get('fw') and not l.get('act'):
             if l['e'] in rejected_roots:
                 return False  # a root whose first dispatch was rejected is dispatched again: the model's driver has forgotten it
